@@ -121,6 +121,60 @@ func TestZZBoundedC15(t *testing.T) {
 			}
 		}
 	}
+	// white space and comments between the keywords themselves, and user names that contain the
+	// keywords of the other clause
+	kgaps := []string{" ", "\n", "\t ", "/**/", " /* c */ ", " -- c\n"}
+	knames := []string{"u", `"with password 'a"`, `"password for b = 'c'"`, `"x = 'y'"`}
+	for _, pw := range []string{"x", "x x", "a'x", "x;"} {
+		q := QuoteString(pw)
+		for _, k1 := range kgaps {
+			for _, k2 := range kgaps {
+				for _, u := range knames {
+					for _, text := range []string{
+						"CREATE" + k1 + "USER " + u + " WITH" + k2 + "PASSWORD " + q,
+						"CREATE USER " + u + k1 + "WITH" + k2 + "PASSWORD " + q + " WITH ALL PRIVILEGES",
+						"SET" + k1 + "PASSWORD" + k2 + "FOR " + u + " = " + q,
+						"SET PASSWORD" + k1 + "FOR" + k2 + u + " = " + q,
+					} {
+						total++
+						query, err := ParseQuery(text)
+						if err != nil {
+							continue
+						}
+						var got string
+						switch st := query.Statements[0].(type) {
+						case *CreateUserStatement:
+							got = st.Password
+						case *SetPasswordUserStatement:
+							got = st.Password
+						}
+						if got != pw {
+							continue
+						}
+						valid++
+						// the password literal must be gone; the rest of the text must be unchanged
+						out := Sanitize(text)
+						want := strings.Replace(text, q, "[REDACTED]", 1)
+						if u != "u" && strings.Contains(u, "x") {
+							want = text[:strings.LastIndex(text, q)] + "[REDACTED]" + text[strings.LastIndex(text, q)+len(q):]
+						}
+						if out != want {
+							class := "keyword-gap"
+							if u != "u" {
+								class = "keywords-inside-user-name"
+							} else if strings.Contains(k1+k2, "/*") || strings.Contains(k1+k2, "--") {
+								class = "comment-between-keywords"
+							}
+							fails[class]++
+							if _, ok := first[class]; !ok {
+								first[class] = fmt.Sprintf("%q -> %q", text, out)
+							}
+						}
+					}
+				}
+			}
+		}
+	}
 	fmt.Printf("BOUNDED-COUNT: generated=%d accepted=%d\n", total, valid)
 	for c, n := range fails {
 		fmt.Printf("BOUNDED-FAIL: %s count=%d first=%s\n", c, n, first[c])
